@@ -52,6 +52,8 @@ ssize_t __wrap_read(int fd, void *buf, size_t n)
 }
 void c07_read_schedule(int cap, int eintr) { rd_cap = cap; rd_eintr = eintr; }
 
+static long stream_off;
+void c07_stream_offset(long off) { stream_off = off; }
 static int make_fd(const char *data, long n, int kind, const char *dir)
 {
     if (kind == 0) {
@@ -81,7 +83,8 @@ static int make_fd(const char *data, long n, int kind, const char *dir)
         if (fd < 0) return -1;
         unlink(path);
         while (w < n) { ssize_t k = write(fd, data + w, (size_t) (n - w)); if (k <= 0) break; w += k; }
-        lseek(fd, 0, SEEK_SET);
+        lseek(fd, stream_off > 0 && stream_off < n ? (off_t) stream_off : 0, SEEK_SET);   /* normally the start; on request somewhere inside */
+        stream_off = 0;
         return fd;
     }
 }
